@@ -168,6 +168,9 @@ def main():
     for name, text, ok in gfam.interface_paths():
         for t in TOOLS:
             cases.append({'tool': t, 'cls': 'interface-paths', 'detail': name, 'text': text})
+    for name, text, planted in gfam.duplicate_kinds():
+        for t in TOOLS:
+            cases.append({'tool': t, 'cls': 'duplicate-kinds', 'detail': name, 'text': text})
     for c in gfam.diagnostic_catalogue():
         if 'extra_files' not in c:
             for t in TOOLS:
